@@ -267,7 +267,12 @@ impl Dictionary {
         }
         self.data.connector.map_connection_ids(&mapper);
         self.data.unk_handler.map_connection_ids(&mapper);
-        self.data.mapper = Some(mapper);
+        // Keeps the composition of all mappings so that a user lexicon loaded later is
+        // translated from the original ids to the current ones.
+        self.data.mapper = Some(match self.data.mapper.take() {
+            Some(prev) => prev.then(&mapper),
+            None => mapper,
+        });
         Ok(self)
     }
 }
